@@ -23,6 +23,9 @@ var exprPool = []string{
 	"allowed[\"k\"] == 'v'", "x > 1.5e3 ? true : false", "size(x) % 2 == 0u", "x.y.z == null", "a-b <= -1", "x*y/2 - 0x1F > 0",
 	"type == model", "x  ==  y", "b\"ab\" != r'c'",
 	"low <= x &&\n  x <= high", "n in [\n    1,\n    2,\n  3]", "x == 1 ||\n\n      y == 2 ||\nz",
+	// quotes that do not pair up naively, '#' inside literals (never preceded by a blank: that is a comment
+	// to the pre-pass, see KF-C03-hash-in-literal)
+	"x == \"a\\\"b\"", "x == '\"'", "\"\"\"a\"b\"\"\" != x", "x != \"#\" && y == '#'", "x == \"a#b\"", "x == r\"\\\"", "x == 'it\\'s' || x == \"\\\\\"",
 	// the condition grammar admits an empty body
 	"",
 }
